@@ -63,6 +63,15 @@ var hsmsPoison = func() [][]byte {
 	}
 }()
 
+var smlPoison = []string{
+	"S1F1 W H->E first <L <U1 x y v val _ a1> ... <A[2] \"abc\">> .\nS1F3 W <L <I1 x 300> ...[5]> .",
+	"S2F1 W <L <A v0> <L <U1 v1 v1> ...> ...> .",
+	"S6F11 W H<-E ceid <L <U4 ceid CEID> <A \"open\n> .",
+	"S1F2 <L <BOOLEAN T F x> <F4 1e39> <B 0x100> <L ... > > .",
+	"S9F9 [W] <L <A[1..0] w> <U1 h e> <L <L <L <I8 Temp ...",
+	"S1F1 W <U1 x> . S1F1 W <U1 x x> . S1F1 W <U1 y",
+}
+
 const smlProbeText = "S99F1 W H->E probe\n<L <U1 7> <A \"probe\">> ."
 
 // smlParse is sml.Parse with two history devices around it (both silent unless something is wrong):
@@ -72,6 +81,12 @@ const smlProbeText = "S99F1 W H->E probe\n<L <U1 7> <A \"probe\">> ."
 //     entry of the returned slices - and parses the same text again: the second result equals the first (results are
 //     not handed out twice).
 func smlParse(s string) (msgs []*ast.DataMessage, errs, warns []string, o real.Outcome) {
+	if h := rng.HashStr(s); h%4 == 2 {
+		// a text that is refused after part of it was parsed (names declared, ellipses counted, a message completed)
+		// goes first: nothing of it may show in the call that follows
+		p := smlPoison[(h/4)%uint64(len(smlPoison))]
+		real.Try(func() { sml.Parse(p) })
+	}
 	o = real.Try(func() { msgs, errs, warns = sml.Parse(s) })
 	if o.Panicked {
 		return
